@@ -260,7 +260,13 @@ def run_job(job):
     elif r.rc is not None and r.rc < 0 and not any(v["source"] == "sanitizer" for v in r.viols):
         # killed by a signal without a sanitizer report
         sig = -r.rc
-        if job.crash_props:
+        crash = next((rec for rec in r.records if rec.get("t") == "crash"), None)
+        if crash and "|" in crash.get("op", ""):
+            # the harness noted which library operation was in flight
+            props, op = crash["op"].split("|", 1)
+            r.viols.append(dict(props=[x for x in props.split(",") if x], oracle="crash", msg="the process died with signal %d inside: %s" % (sig, op),
+                                source="crash", detail=dict(stderr=r.err[-1500:])))
+        elif job.crash_props:
             r.viols.append(dict(props=list(job.crash_props), oracle="crash", msg="workload died with signal %d" % sig,
                                 source="crash", detail=dict(stderr=r.err[-1500:])))
         else:
